@@ -16,7 +16,7 @@ EXTENDS Integers, Sequences, FiniteSets, TLC, Json, IOUtils
 Paths == <<"call", "batch", "notify", "response", "errresponse", "pushnotify", "callback", "cbreply", "bridge">>
 MClass == <<"ascii", "quote", "backslash", "lf", "tab", "nul", "del", "ctl", "html", "u2028", "latin", "astral", "rpcdot", "space">>
 VClass == <<"absent", "null", "emptyobj", "emptyarr", "nested", "bignum", "rawws", "ctrlstr", "unicode", "map", "slice", "htmlstr">>
-IdClass == <<"int", "neg", "exp", "frac", "str", "emptystr", "quotestr", "unistr", "bigint">>
+IdClass == <<"int", "neg", "exp", "frac", "str", "emptystr", "quotestr", "unistr", "bigint", "pctstr">>
 
 \* shape rules of an emitted message
 Msgs == [isReq : BOOLEAN, hasId : BOOLEAN, hasMethod : BOOLEAN, hasParams : BOOLEAN, hasResult : BOOLEAN, hasError : BOOLEAN]
